@@ -151,6 +151,8 @@ def jobs(tier, seed=0):
     res.append(dict(cc="BRA", preset="nw_seaweed", options=copy.deepcopy(V["nw_seaweed"])))
     # an explicit threshold under a schedule that has none of its own
     res.append(dict(cc="ARG", preset="nw_T50", options=copy.deepcopy(V["nw_T50"])))
+    # a country whose table row has dairy herds but no national milk figure
+    res.append(dict(cc="CYP", preset="net_nuclear_winter", options=copy.deepcopy(P["net_nuclear_winter"])))
     # a short horizon that ends while crops are still depressed, with demand alive in the last month
     for cc in ("USA", "DNK"):
         res.append(dict(cc=cc, preset="nw_48m", options=copy.deepcopy(V["nw_48m"])))
